@@ -13,7 +13,7 @@ use crate::refhttp::resp::{build_response, Framing};
 use crate::transport::{serve_scripts_limited, strat::seg, Ev, Seg};
 
 pub const ALPHABET: &[u8] = b"01a;: \r\nx";
-pub const CONTEXTS: u8 = 5;
+pub const CONTEXTS: u8 = 7;
 
 #[derive(Debug, Clone, Serialize, Deserialize)]
 pub enum Api {
@@ -436,8 +436,8 @@ const HEAD_CHUNKED: &[u8] = b"HTTP/1.1 200 OK\r\nTransfer-Encoding: chunked\r\n\
 impl Property for C05 {
     type Case = Case;
     const ID: &'static str = "C05";
-    const RULE: &'static str = "G-a: every string over {0,1,a,;,:,SP,CR,LF,x} up to length L (quick 5, thorough 7) in five contexts (whole response, after a status line, chunked body, \
-Content-Length value, CONNECT reply); G-b: proptest-generated valid responses (plain, gzip/deflate, redirect, JSON, charset, CONNECT reply) with 1-4 mutation operators (bit flip, splice, duplication, \
+    const RULE: &'static str = "G-a: every string over {0,1,a,;,:,SP,CR,LF,x} up to length L (quick 5, thorough 7) in seven contexts (whole response, after a status line, chunked body, \
+Content-Length value, CONNECT reply, Location value of a followed redirect, charset label); G-b: proptest-generated valid responses (plain, gzip/deflate, redirect, JSON, charset, CONNECT reply) with 1-4 mutation operators (bit flip, splice, duplication, \
 deletion, truncation, numeric blow-up 2^31/2^63/2^64-1/2^64/40 digits, a transient transport error after which the stream goes on) under all segmentations; G-c: one endless stream per unbounded-looking construct. Each drives send() (with redirects and \
 CONNECT) then a generated API call mix. Oracle: no panic, termination decided by transport counters (reads at EOF, bounded pull), peak heap <= 256 KiB + 16 x max(bytes served, bytes delivered) \
 (64 x for json). non-trivial = input rejected somewhere (some call returned Err) or it got past the head; distinct by case hash";
@@ -514,21 +514,27 @@ CONNECT) then a generated API call mix. Oracle: no panic, termination decided by
                     1 => ("http://origin.test/", None, [HEAD_OK, &s[..]].concat()),
                     2 => ("http://origin.test/", None, [HEAD_CHUNKED, &s[..]].concat()),
                     3 => ("http://origin.test/", None, [&b"HTTP/1.1 200 OK\r\nContent-Length: "[..], &s[..], &b"\r\n\r\nbody"[..]].concat()),
-                    _ => ("https://origin.test/", Some("http://proxy.test:3128"), s.clone()),
+                    4 => ("https://origin.test/", Some("http://proxy.test:3128"), s.clone()),
+                    5 => ("http://origin.test/dir/page?q=1", None, [&b"HTTP/1.1 302 Found\r\nContent-Length: 0\r\nLocation: "[..], &s[..], &b"\r\n\r\n"[..]].concat()),
+                    _ => ("http://origin.test/", None, [&b"HTTP/1.1 200 OK\r\nContent-Length: 4\r\nContent-Type: text/plain; charset="[..], &s[..], &b"\r\n\r\nb\xe9\xffx"[..]].concat()),
                 };
                 ctx.label(match c {
                     0 => "alpha:whole-response",
                     1 => "alpha:after-status-line",
                     2 => "alpha:chunked-body",
                     3 => "alpha:content-length-value",
-                    _ => "alpha:connect-reply",
+                    4 => "alpha:connect-reply",
+                    5 => "alpha:location-value",
+                    _ => "alpha:charset-label",
                 });
                 sig_class = format!("alpha{c}");
                 let seg = if idx % 3 == 0 { Seg::OneByte } else { Seg::Whole };
                 let mut ev = seg.split(&wire, &[]);
                 ev.push(Ev::Eof);
                 // the same script for every dial a redirect might cause (none from this alphabet, but harmless)
-                run = drive(url, proxy, vec![ev], 0, &api, None);
+                // the same script for every connection a redirect causes (bounded by max_redirections)
+                let scripts: Vec<Vec<Ev>> = (0..8).map(|_| ev.clone()).collect();
+                run = drive(url, proxy, scripts, 0, &api, None);
             }
             Case::Mutant { base, ops, seg, api } => {
                 let (mut wire, structural) = build_base(base);
